@@ -842,6 +842,13 @@ func (x *Exec) applyContract(st *State, fc *FuncContract, names []string, tys []
 	envPre := &Env{x: x, st: pre, old: pre, names: binds, callee: true, pkg: cpkg}
 	for _, cl := range fc.Requires {
 		t := x.evalBool(cl.Expr, envPre)
+		if x.fc != nil {
+			if an, ok := x.fc.AssumeRequires[lastName(key)]; ok {
+				x.ledger[fmt.Sprintf("%s: precondition of %s assumed at its call sites in %s", an, lastName(key), shortFunc(x.unitName()))] = true
+				x.assume(st, t)
+				continue
+			}
+		}
 		x.oblige(st, "requires@call", fmt.Sprintf("precondition of %s: %s", key, cl.Text), pos, t, cl.Props, cl.Text)
 	}
 	// frame
@@ -900,6 +907,9 @@ func (x *Exec) applyContract(st *State, fc *FuncContract, names []string, tys []
 	envPost := &Env{x: x, st: st, old: pre, names: binds, callee: true, pkg: cpkg}
 	x.bindResults(envPost, fc, results, res)
 	for _, cl := range fc.Ensures {
+		if cl.Hidden {
+			continue // proved in the callee's body, not revealed to callers (keeps caller queries small)
+		}
 		t := x.evalBool(cl.Expr, envPost)
 		x.assume(st, t)
 	}
